@@ -1,2 +1,45 @@
-(* placeholder; theorems are added below *)
-From Hexital Require Import Base.Prelude.
+(* C02 - Readings of closed candles are final: no look-ahead, no repainting.
+   Same scope as C01 (leaf indicators on the base timeframe; obligations discharged for HLA,
+   TR, OBV, EMA): the store after any further appends extends the store before them, and a
+   batch over a longer list gives the shorter list's readings on the shorter list's candles. *)
+From Coq Require Import ZArith List String Bool.
+From Hexital Require Import Base.Prelude Base.Num Model.Manager Model.Candle Model.Readings Model.Engine
+  Proofs.EngineProofs Proofs.CausalProofs.
+Import ListNotations.
+Local Open Scope Z_scope.
+
+(* batch causality: calculate() over ds ++ more agrees with calculate() over ds on the
+   candles of ds (it extends it) *)
+Theorem C02_batch_is_causal_leaf :
+  forall (O : NumOps) (I : ind O) (calc : store O -> Z -> res (val O)),
+  i_subs O I = [] /\ i_managed O I = [] ->
+  (forall rec st i, calc_reading O rec I st i = (v <- calc st i ;; Ok (v, st))) ->
+  Causal O I calc ->
+  forall (ds more : list (cd (payload O))) r, Forall (fresh O I) (ds ++ more) ->
+  calculate O I (ds ++ more) = Ok r ->
+  exists mid tl, calculate O I ds = Ok mid /\ r = mid ++ tl.
+Proof.
+  intros O I calc Hl Hp Hc ds more r Hf H.
+  rewrite (engine_batch_is_canon O I Hl calc Hp Hc) in H by assumption.
+  destruct (prefix_stable O I calc ds more r Hf H) as (mid & tl & Hm & Hr).
+  exists mid, tl. split; [|exact Hr].
+  rewrite (engine_batch_is_canon O I Hl calc Hp Hc); [exact Hm|].
+  apply Forall_app in Hf. tauto.
+Qed.
+Print Assumptions C02_batch_is_causal_leaf.
+
+(* no repainting on live appends: appending to a calculated indicator leaves every existing
+   candle - readings included - exactly as it was *)
+Theorem C02_append_never_repaints_leaf :
+  forall (O : NumOps) (I : ind O) (calc : store O -> Z -> res (val O)),
+  i_subs O I = [] /\ i_managed O I = [] ->
+  (forall rec st i, calc_reading O rec I st i = (v <- calc st i ;; Ok (v, st))) ->
+  Causal O I calc ->
+  forall (cs : store O) (new : list (cd (payload O))) r, IsCanon O I calc cs -> Forall (fresh O I) new ->
+  calculate O I (cs ++ new) = Ok r -> exists tl, r = cs ++ tl.
+Proof.
+  intros O I calc Hl Hp Hc cs new r Hcs Hf H.
+  rewrite (calculate_is_leaf O I Hl calc Hp) in H. rewrite append_is_canon in H by assumption.
+  destruct (canon_acc_iscanon O I calc new cs r Hcs Hf H) as [_ Htl]. exact Htl.
+Qed.
+Print Assumptions C02_append_never_repaints_leaf.
